@@ -281,6 +281,7 @@ CANON_HEAD = {
     "lam_id": ("finalAttrs: ", ""),
     "lam_formals_inline": ("{ lib, stdenv }:\n", ""),
     "lam_formals_ml": ("{\n  lib,\n  stdenv,\n  fetchurl ? null,\n  ...\n}:\n", ""),
+    "lam_formals_ml_cmt": ("{\n  lib,\n  stdenv, # note\n\n  fetchurl ? null,\n  # about the rest\n  ...\n}:\n", ""),
     "lam_formals_at": ("{ lib, ... }@args:\n", ""),
     "call": ("stdenv.mkDerivation ", ""),
     "call_rec": ("stdenv.mkDerivation ", ""),
@@ -415,7 +416,7 @@ def render_canon(d: dict, seed: int = 0) -> str:
             elif gap == "blank_after_in":
                 one = one + f"\n# below in {k + 1}\n"
             let += one + (f"# after in {k + 1}\n" if d.get("inc") else "")
-        if d["head"] in ("lam_formals_ml", "lam_formals_inline", "lam_formals_at", "lam_id"):
+        if d["head"] in ("lam_formals_ml", "lam_formals_ml_cmt", "lam_formals_inline", "lam_formals_at", "lam_id"):
             text = (pre if d["head"] != "lam_id" else "finalAttrs:\n") + let + body + post
         else:
             text = let + text
